@@ -1269,6 +1269,7 @@ static void repairSequence(Ctx &c, const Graph &g0, const Verdict &v0, const Fau
             }
         }
         old.clear();
+        if (judged) s.inputClass = v0.crashProne ? "ordinary-units-cycle-reachable" : v0.impCycleReachable ? "import-cycle-reachable" : v0.fileCycle ? "files-import-from-each-other" : "acyclic-input"; // what a fresh resolution sees from here on (an uncleared library still holds the faulted models)
         if (freshRoot && !s.parseRoot(render(g0, 0))) return;
         int r2 = s.resolve(g0, v0, texts0, "repaired", judged);
         if (!judged) cc.outcome(std::string("not-judged:") + VAR[variant] + (reuseObjects ? "+objects-reused" : "") + ":" + f.name.substr(0, f.name.find(':')) + (r2 == 1 ? ":true" : ":false"));
@@ -1402,7 +1403,7 @@ int main(int argc, char **argv)
     };
     S("g2", {1, 1}, {1, 1});
     S("g3", {1, 1, 1}, {1, 1, 1});
-    S("g4", {1, 1, 1, 1}, {1, 1, 1, 1}, 4, false);
+    S("g4", {1, 1, 1, 1}, {1, 1, 1, 1}, 5, false);
     S("h2", {1, 2}, {1, 2});
     S("u3", {0, 0, 0}, {3, 1, 1});
     S("d3", {1, 1, 0}, {0, 3, 1});
